@@ -261,6 +261,14 @@ RealValues ==
      [c |-> "F", s |-> 0, m |-> <<1>>, e |-> -1074],        \* smallest subnormal
      [c |-> "F", s |-> 0, m |-> <<31, 255, 255, 255, 255, 255, 255>>, e |-> 971],   \* max double
      [c |-> "F", s |-> 1, m |-> <<1>>, e |-> 128],
+     [c |-> "F", s |-> 0, m |-> <<1>>, e |-> -128],         \* exponent octet 0x80
+     [c |-> "F", s |-> 1, m |-> <<5>>, e |-> -128],
+     [c |-> "F", s |-> 0, m |-> <<3>>, e |-> -127],
+     [c |-> "F", s |-> 0, m |-> <<1>>, e |-> 127],
+     [c |-> "F", s |-> 0, m |-> <<1>>, e |-> 255],
+     [c |-> "F", s |-> 0, m |-> <<1>>, e |-> 256],
+     [c |-> "F", s |-> 0, m |-> <<1>>, e |-> -256],
+     [c |-> "F", s |-> 0, m |-> <<1>>, e |-> -257],
      [c |-> "F", s |-> 0, m |-> <<1, 1>>, e |-> -129],
      [c |-> "PINF", s |-> 0, m |-> <<>>, e |-> 0],
      [c |-> "NINF", s |-> 0, m |-> <<>>, e |-> 0],
@@ -430,7 +438,7 @@ Spec == Init /\ [][Next]_vars
 ------------------------------------------------------------------------------
 (* emission of behaviours for binding A                                     *)
 
-MaxVals == 16
+MaxVals == 22
 Case == [env |-> [tagdef |-> gEnv.tagdef, extimp |-> gEnv.extimp,
                   types |-> [x \in DOMAIN gEnv.types \cup {"Top"} |-> IF x = "Top" THEN gT ELSE gEnv.types[x]]],
          top |-> "Top", depth |-> gDepth,
